@@ -4,7 +4,9 @@ import (
 	"fmt"
 	"testing"
 
+	"github.com/opsidian/parsley/ast/interpreter"
 	"github.com/opsidian/parsley/data"
+	"github.com/opsidian/parsley/parsley"
 	"pgregory.net/rapid"
 )
 
@@ -25,13 +27,28 @@ func endsOf(ts TreeSet) bits {
 func runC07(c *GCase, clone bool, st *Stats) (diffs []string, err error) {
 	g, in := c.G, c.In
 	trims := hasKind(g, KLTrim, KRTrim)
+	// Single drops a result that arrives together with an error; Optional passes its operand's error
+	// on, and whether that operand failed (error) or was curtailed (no error) depends on the calling
+	// context: with Single the fresh-context comparison below would compare two legitimate answers
+	single := hasKind(g, KSingle)
 	probe := NewProbe()
 	probe.Budget = 8000
 	probe.Snap = true
-	b := Build(g, BuildOpts{MemoRules: c.memoRules(), Probe: probe, CloneTrimOperand: clone})
+	// sequence-like nodes are bound to the library's own Array interpreter: evaluating a returned
+	// tree (twice) is part of the history after which every returned node must read the same
+	b := Build(g, BuildOpts{MemoRules: c.memoRules(), Probe: probe, CloneTrimOperand: clone, Interp: interpreter.Array()})
 	ctx, f := NewCtx(in)
-	if _, _, berr := parseGuarded(b.NT[0], ctx, data.EmptyIntMap, f.Pos(0)); berr != nil {
+	root, _, berr := parseGuarded(b.NT[0], ctx, data.EmptyIntMap, f.Pos(0))
+	if berr != nil {
 		return nil, fmt.Errorf("%v", berr)
+	}
+	for _, alt := range alternatives(root) {
+		for round := 0; round < 2; round++ {
+			func() {
+				defer func() { _ = recover() }() // a node without value or interpreter may refuse; it must not be changed
+				_, _ = parsley.EvaluateNode(nil, alt)
+			}()
+		}
 	}
 	compare := func(what string) {
 		for _, s := range probe.snaps {
@@ -67,7 +84,7 @@ func runC07(c *GCase, clone bool, st *Stats) (diffs []string, err error) {
 			// (only where C01 gives the grammar a meaning: with LeftTrim/RightTrim a parser can return
 			// a node together with a whitespace error, and what a fresh context returns is not
 			// something C07 speaks about)
-			if e1, e3 := endsOf(r1), endsOf(r3); e1 != e3 && !trims {
+			if e1, e3 := endsOf(r1), endsOf(r3); e1 != e3 && !trims && !single {
 				diffs = append(diffs, fmt.Sprintf("N%d at offset %d reaches ends %v when asked again after the parse but %v in a fresh context", nt, i, bitsList(e1), bitsList(e3)))
 			}
 		}
@@ -130,7 +147,7 @@ func init() {
 		ID:      "C07",
 		NewCase: func() interface{} { return &GCase{} },
 		Gen: func(t *rapid.T) interface{} {
-			o := GenOpts{MaxNT: 3, MaxDepth: 3, Alphabet: "ab", NonMono: true, MaxInput: 6, Skeleton: rapid.Bool().Draw(t, "skeleton"), Share: true, ExtraMemo: 4, Single: rapid.IntRange(0, 3).Draw(t, "single") == 0}
+			o := GenOpts{MaxNT: 3, MaxDepth: 3, Alphabet: "ab", NonMono: true, MaxInput: 6, Skeleton: rapid.Bool().Draw(t, "skeleton"), Share: true, ExtraMemo: 4, SeqOpts: true, Single: rapid.IntRange(0, 3).Draw(t, "single") == 0}
 			if thorough() {
 				o.MaxNT, o.MaxInput = 4, 8
 			}
